@@ -258,8 +258,22 @@ impl Expr {
 }
 
 impl Display for Expr {
+    /// The text identifies the expression: it is used as the column name and as the key
+    /// under which computed values are cached per row, so it has to spell out operators,
+    /// brackets and function arguments.
     fn fmt(&self, fmt: &mut Formatter) -> fmt::Result {
         use std::fmt::Write;
+
+        fn write_operand(fmt: &mut Formatter, expr: &Expr) -> fmt::Result {
+            let is_compound = expr.function.is_none() && expr.left.is_some() && expr.right.is_some();
+            if is_compound {
+                fmt.write_char('(')?;
+                fmt.write_str(&expr.to_string())?;
+                fmt.write_char(')')
+            } else {
+                fmt.write_str(&expr.to_string())
+            }
+        }
 
         if self.minus {
             fmt.write_char('-')?;
@@ -271,9 +285,15 @@ impl Display for Expr {
             if let Some(ref left) = self.left {
                 fmt.write_str(&left.to_string())?;
             }
+            if let Some(ref args) = self.args {
+                for arg in args {
+                    fmt.write_str(", ")?;
+                    fmt.write_str(&arg.to_string())?;
+                }
+            }
             fmt.write_char(')')?;
         } else if let Some(ref left) = self.left {
-            fmt.write_str(&left.to_string())?;
+            write_operand(fmt, left)?;
         }
 
         if let Some(ref field) = self.field {
@@ -284,8 +304,24 @@ impl Display for Expr {
             fmt.write_str(val)?;
         }
 
+        if self.function.is_none() {
+            if let Some(ref op) = self.arithmetic_op {
+                fmt.write_str(match op {
+                    ArithmeticOp::Add => " + ",
+                    ArithmeticOp::Subtract => " - ",
+                    ArithmeticOp::Multiply => " * ",
+                    ArithmeticOp::Divide => " / ",
+                    ArithmeticOp::Modulo => " % ",
+                })?;
+            } else if let Some(ref op) = self.logical_op {
+                write!(fmt, " {:?} ", op)?;
+            } else if let Some(ref op) = self.op {
+                write!(fmt, " {:?} ", op)?;
+            }
+        }
+
         if let Some(ref right) = self.right {
-            fmt.write_str(&right.to_string())?;
+            write_operand(fmt, right)?;
         }
 
         Ok(())
